@@ -1380,6 +1380,7 @@ theorem sim_apply {st : State} {m : Send} (h : SInv (view st) m) (op : Op) (hok 
   | cancel id => exact sim_cancel h id
   | read id n => exact sim_read h id n
   | close id => exact sim_close h id
+  | wake => exact ⟨m, rfl, h⟩
   | peer f =>
     obtain ⟨m', h1, h2⟩ := sim_peer h f hok
     refine ⟨m', ?_, h2⟩
